@@ -619,8 +619,11 @@ func (Decimal64) Format() Format {
 	return FmtDecimal64
 }
 
+// String is the shortest decimal text that reads back as the same value ("%f" keeps six
+// fraction digits: two keys that differ in the seventh had one text, and 1.5 was "1.500000",
+// which is not how a document writes it)
 func (x Decimal64) String() string {
-	return fmt.Sprintf("%f", float64(x))
+	return strconv.FormatFloat(float64(x), 'f', -1, 64)
 }
 
 func (x Decimal64) Value() interface{} {
